@@ -4,11 +4,11 @@ Host-stack-depth model of Deferred firing and of the inlineCallbacks driver loop
 Transcribes, from `src/twisted/internet/defer.py`:
   * `Deferred.callback` / `Deferred.errback` + `Deferred._startRunCallbacks`   → `fireD`
   * `Deferred._runCallbacks`                                                   → `runCallbacks`
-      (the `_runningCallbacks` guard), `outer` (the `while chain:` loop with the
-      `current.paused` test) and `inner` (the `while current.callbacks:` loop: `_CONTINUE`
+      (the `_runningCallbacks` guard), `outer` (the `while chain:` loop; a paused Deferred on
+      top of the chain is popped and the walk continues with the one below) and `inner` (the `while current.callbacks:` loop: `_CONTINUE`
       hand-over which PUSHES the chainee on the explicit `chain` list instead of recursing;
       the user-callback call; "result is a Deferred": no result / result is a Deferred /
-      paused → `pause()` + `_continuation()` appended + `break`; otherwise the result is stolen)
+      paused / still has callbacks to run → `pause()` + `_continuation()` appended + `break`; otherwise the result is stolen)
   * `Deferred.addBoth` (append, `_runCallbacks()` if `called`), `pause`, `unpause`       → `Op`
   * `Deferred.chainDeferred` (callback = the bound method `d.callback`/`d.errback`)      → `Cb.fire`
   * `_cancellableInlineCallbacks`/`_inlineCallbacks`/`_gotResultInlineCallbacks`         → `inlineCb`,
@@ -172,7 +172,7 @@ def outer : (fuel : Nat) → (D : Nat) → List Nat → St → St
     match chain with
     | [] => st
     | cur :: rest =>
-      if (st.get cur).paused ≠ 0 then st
+      if (st.get cur).paused ≠ 0 then outer f D rest st     -- chain.pop(); continue
       else inner f D cur rest st
 termination_by structural f => f
 
@@ -198,7 +198,7 @@ def inner : (fuel : Nat) → (D cur : Nat) → List Nat → St → St
         match r with
         | .dfd j =>
           let t := st.get j
-          if t.result = .none ∨ t.result.isDfd ∨ t.paused ≠ 0 then
+          if t.result = .none ∨ t.result.isDfd ∨ t.paused ≠ 0 ∨ t.callbacks ≠ [] then
             let st := st.set cur { st.get cur with paused := (st.get cur).paused + 1 }
             let st := st.set j { st.get j with callbacks := (st.get j).callbacks ++ [.cont cur] }
             outer f D rest st                               -- break; finished: chain.pop()
